@@ -277,7 +277,7 @@ Proof. cbv zeta. repeat split; vm_compute; reflexivity. Qed.
 
 (* the step counter on a concrete run: TheHowWhy's first alternative on "I know the how" from token 4 *)
 Example C01_steps_nonvacuous :
-  matches_c ex_leaf ex_oracle the_how_now (skipn 4 f1_toks) f1_src = (Ok 0, 8) /\
+  matches_c ex_leaf ex_oracle the_how_now (skipn 4 f1_toks) f1_src = (Ok 0, 7) /\
   psize the_how_now = 8 /\ rdepth the_how_now = 0 /\ rdepth (PRepeat (PSeq [PRepeat PAny 0]) 1) = 2 /\
-  snd (matches_c ex_leaf ex_oracle (PRepeat (PSeq [PRepeat PAny 0]) 1) f1_toks f1_src) = 12.
+  snd (matches_c ex_leaf ex_oracle (PRepeat (PSeq [PRepeat PAny 0]) 1) f1_toks f1_src) = 14.
 Proof. repeat split; vm_compute; reflexivity. Qed.
